@@ -819,6 +819,82 @@ func serveUDPBacklog(slowMs, burst int) string {
 	return fmt.Sprintf("b got %d/1 waited %d slowhandled %d serving %d", got, waited, slowHandled.Load(), stillServing)
 }
 
+// serveUDPGiveUp: the server has a confirmable request of its own outstanding towards peer A, who never answers; the
+// request is given up (ACK_TIMEOUT 40 ms, MAX_RETRANSMIT 1, housekeeping every 20 ms).  After that - and after A sent one
+// more datagram - peer B must still be served, and Stop() must end Serve.  (A silent peer must not cost the others anything.)
+func serveUDPGiveUp() string {
+	l, err := coapNet.NewListenUDP("udp4", "127.0.0.1:0")
+	if err != nil {
+		return "rig-error listen"
+	}
+	defer l.Close()
+	r := mux.NewRouter()
+	_ = r.Handle("/echo", mux.HandlerFunc(func(w mux.ResponseWriter, req *mux.Message) {
+		body, _ := req.ReadBody()
+		_ = w.SetResponse(codes.Content, message.TextPlain, bytes.NewReader(body))
+	}))
+	var firstPeer atomic.Int32
+	var srvReqDone atomic.Int32
+	s := udp.NewServer(options.WithMux(r), options.WithErrors(func(error) {}),
+		options.WithTransmission(1, 40*time.Millisecond, 1),
+		options.WithPeriodicRunner(func(f func(now time.Time) bool) {
+			go func() {
+				for f(time.Now()) {
+					time.Sleep(20 * time.Millisecond)
+				}
+			}()
+		}),
+		options.WithOnNewConn(func(cc *udpclient.Conn) {
+			if firstPeer.Add(1) != 1 {
+				return
+			}
+			go func() {
+				ctx, cancel := context.WithTimeout(context.Background(), time.Second)
+				defer cancel()
+				if resp, err := cc.Get(ctx, "/never-answered"); err == nil {
+					cc.ReleaseMessage(resp)
+				}
+				srvReqDone.Add(1)
+			}()
+		}))
+	served := make(chan error, 1)
+	go func() { served <- s.Serve(l) }()
+	addr := l.LocalAddr().(*net.UDPAddr)
+	time.Sleep(30 * time.Millisecond)
+	a, err := net.DialUDP("udp4", nil, addr)
+	if err != nil {
+		return "rig-error dial"
+	}
+	defer a.Close()
+	_, _ = a.Write(request(1, 1, 4001, true))
+	time.Sleep(300 * time.Millisecond) // both copies of the server's request are out and given up by now
+	_, _ = a.Write(request(1, 2, 4002, true))
+	time.Sleep(50 * time.Millisecond)
+	b, err := net.DialUDP("udp4", nil, addr)
+	if err != nil {
+		return "rig-error dial"
+	}
+	defer b.Close()
+	got := 0
+	buf := make([]byte, 2048)
+	for i := 0; i < 3; i++ {
+		_, _ = b.Write(request(9, i+1, int32(7001+i), true))
+		_ = b.SetReadDeadline(time.Now().Add(500 * time.Millisecond))
+		if n, err := b.Read(buf); err == nil && n > 4 {
+			got++
+		}
+	}
+	stopped := 0
+	done := make(chan struct{})
+	go func() { s.Stop(); close(done) }()
+	select {
+	case <-served:
+		stopped = 1
+	case <-time.After(2 * time.Second):
+	}
+	return fmt.Sprintf("giveup b got %d/3 stopped %d", got, stopped)
+}
+
 // serveUDPOrder: one peer sends `burst` well-formed non-confirmable requests back to back (more than the connection's
 // receive queue holds) while the handler is busy with the first one for slowMs; the handler must see them in the order in
 // which they arrived (one socket pair on loopback: the order in which they were sent).
@@ -1489,6 +1565,8 @@ func TestC10(t *testing.T) {
 			msgs, _ := strconv.Atoi(f[5])
 			if f[1] == "udpwild" {
 				fmt.Fprintln(w, serveUDPWild(good)) // serve udpwild <seed> <slowMs> <unused> <unused>
+			} else if f[1] == "udpgiveup" {
+				fmt.Fprintln(w, serveUDPGiveUp()) // serve udpgiveup 0 0 0 0
 			} else if f[1] == "udporder" {
 				fmt.Fprintln(w, serveUDPOrder(good, bad)) // serve udporder <seed> <slowMs> <burst> <unused>
 			} else if f[1] == "udpbacklog" {
